@@ -682,6 +682,9 @@ func execPhase(t Target, w *World, top string, phase int) *Result {
 	for _, p := range listAll(tmp) {
 		res.Stray = append(res.Stray, "$TMP/"+p)
 	}
+	if os.Getenv("VERIFSIM_DEBUG_DIGEST") != "" {
+		fmt.Fprintf(os.Stderr, "DIGEST %s ops=%d fired=%d class=%s\n", digest(res), len(res.Ops), len(res.Fired), w.Class)
+	}
 	CaseDigest = shaStr(CaseDigest + digest(res) + fmt.Sprint(len(res.Ops), len(res.Fired)))
 	for _, f := range w.Files {
 		if filepath.Clean(f.Path) == filepath.Clean(w.Out) {
